@@ -68,6 +68,8 @@ def cases(draw):
         ql = q(m)
         if not sum(ql) > 0:
             ql[draw(st.integers(0, m - 1))] = draw(pos(1, 9000))
+        if draw(st.integers(0, 3)) == 0:
+            ql = [draw(pos(1e-7, 3e-4)) for _ in range(m)]  # a trickle: positive but tiny total inflow (still far from subnormal)
         A.update(q_lasts=ql, v_lasts=v(m))
     elif prim == "nodes.get_downstream_density":
         m = draw(st.integers(2, 4))
@@ -99,7 +101,7 @@ def cases(draw):
         vc = [float(np.asarray(NP.links.Veq(rho_crit, v_free, rho_crit, a))), float(CS.links.Veq(cs.DM(rho_crit), v_free, rho_crit, a))]
         A.update(d=draw(fl(0, 8000)), w=draw(fl(0, 500)), v_ctrl=draw(fl(0, 200, (math.inf, v_free) + tuple(vc))), v_first=draw(fl(0, 1.5 * v_free, (v_free,) + tuple(vc))))
     elif prim.startswith("origins.get_ramp_flow"):
-        A.update(d=draw(fl(0, 8000)), w=draw(fl(0, 500)), C=draw(pos(200, 5000)), r=draw(fl(0, 1, (1,))), rho_first=draw(fl(0, rho_max, (rho_crit, rho_max))))
+        A.update(d=draw(fl(0, 8000)), w=draw(fl(0, 500)), C=draw(st.one_of(pos(200, 5000), pos(200, 5000), st.just(0.0))), r=draw(fl(0, 1, (1,))), rho_first=draw(fl(0, rho_max, (rho_crit, rho_max))))
     elif prim.startswith("origins.get_simplifiedramp_flow"):
         A.update(qdes=draw(fl(0, 6000, (math.inf,) if prim.endswith(":limited") else ())), d=draw(fl(0, 8000)), w=draw(fl(0, 500)),
                  C=draw(pos(200, 5000)), rho_first=draw(fl(0, rho_max, (rho_crit, rho_max))))
